@@ -507,8 +507,17 @@ impl Worker {
             None => {
                 use std::os::unix::process::ExitStatusExt;
                 let st = self.child.wait().ok();
-                std::thread::sleep(Duration::from_millis(30));
-                let tail = self.errtail.lock().map(|g| g.clone()).unwrap_or_default();
+                // the reader thread may not have delivered the abort message yet (seen under load): wait for it
+                let mut tail = String::new();
+                for _ in 0..100 {
+                    std::thread::sleep(Duration::from_millis(20));
+                    tail = self.errtail.lock().map(|g| g.clone()).unwrap_or_default();
+                    if !tail.trim().is_empty() {
+                        std::thread::sleep(Duration::from_millis(20));
+                        tail = self.errtail.lock().map(|g| g.clone()).unwrap_or_default();
+                        break;
+                    }
+                }
                 let how = match st {
                     Some(s) => match s.signal() {
                         Some(6) => "SIGABRT".to_string(),
@@ -1255,10 +1264,17 @@ fn known_inputs() -> Vec<(String, String)> {
         ("r8:validate-box-string-arg", "# Experimental!\n⊨ [□{3 \"ab\"}] 5".to_string()),
         ("r8:noise-octaves-huge", "# Experimental!\nnoise 1 1e308 ↯1_1 ⇡6".to_string()),
         // still open after the last round
-        ("open:rows-box-empty-huge", "≡□ ↯1e9 []".to_string()),
-        ("open:deduplicate-empty-rows", "◴ °△ 1e10_0".to_string()),
-        ("open:under-pow-backward", "⍜(ⁿ˜4294967296)".to_string()),
-        ("open:un-datetime-overflow", "°datetime [2000 1 1e13]".to_string()),
+        // repaired in round 9: must stay quiet
+        ("r9:rows-box-empty-huge", "≡□ ↯1e9 []\n≡□ ↯294967296 []".to_string()),
+        ("r9:deduplicate-empty-rows", "◴ °△ 1e10_0".to_string()),
+        ("r9:under-pow-backward", "⍜(ⁿ˜4294967296)".to_string()),
+        ("r9:un-datetime-overflow", "°datetime [2000 1 1e13]\n°datetime[2 2 1e13]".to_string()),
+        // still open on the frozen tree (reported by the fixer as not repaired)
+        ("open:classify-empty-rows-huge", "⊛ °△ 1e10_0".to_string()),
+        ("open:unique-empty-rows-huge", "◰ °△ 1e10_0".to_string()),
+        ("open:occurrences-empty-rows-huge", "⧆ °△ 1e10_0".to_string()),
+        ("open:rise-empty-rows-huge", "⍏ °△ 1e10_0".to_string()),
+        ("open:algebra-sum-power", "°(ⁿ100000000+1) 2".to_string()),
         ("open:nested-under", format!("{}⊢ [1]", "⍜".repeat(26))),
     ];
     v.into_iter().map(|(n, s)| (n.to_string(), s)).collect()
